@@ -198,7 +198,6 @@ func (p *parser) parseIPv4(u *Url, input string) (string, error) {
 	for counter, n := range numbers {
 		ipv4 += IPv4Addr(n * int64(math.Pow(256, float64(3-counter))))
 	}
-	u.isIPv4 = true
 	return ipv4.String(), nil
 }
 
@@ -337,7 +336,6 @@ func (p *parser) parseIPv6(u *Url, input *inputString) (string, error) {
 			return "", err
 		}
 	}
-	u.isIPv6 = true
 	return "[" + address.String() + "]", nil
 }
 
@@ -432,6 +430,27 @@ func (address IPv4Addr) String() string {
 		strconv.Itoa(int((address>>16)&0xFF)) + "." +
 		strconv.Itoa(int((address>>8)&0xFF)) + "." +
 		strconv.Itoa(int(address&0xFF))
+}
+
+// isSerializedIPv4 tells if s is the serialization of an IPv4 address: four decimal numbers
+// in the range 0-255 without leading zeros, separated by U+002E (.).
+func isSerializedIPv4(s string) bool {
+	parts := strings.Split(s, ".")
+	if len(parts) != 4 {
+		return false
+	}
+	for _, part := range parts {
+		if part == "" || len(part) > 3 || !containsOnly(part, ASCIIDigit) {
+			return false
+		}
+		if len(part) > 1 && strings.HasPrefix(part, "0") {
+			return false
+		}
+		if n, err := strconv.Atoi(part); err != nil || n > 255 {
+			return false
+		}
+	}
+	return true
 }
 
 var idnaProfile = idna.New(
